@@ -293,6 +293,34 @@ def run(ctx):
         if not held:
             run.finding(Finding(R8, su.id, "start_updater does not test the token: with a wrong or missing token it returns Ok, the spawned thread fails at its first refresh and leaves the 'updater running' flag set, after which the rightful owner's refreshes are skipped", site=su.loc()))
 
+    R9 = "C14.R9"
+    run.rule(R9, "the 'updater is running' flag (which makes every owner call skip its own refresh) is cleared whenever the updater thread ends, also when it ends on an error such as a token that is no longer valid after close/open", floor=1)
+    ur = None
+    for fid_, f_ in db.fns.items():
+        if fid_.endswith("owner_updater::Updater::<'a, L, C, K>::run"):
+            ur = f_
+    if ur is None:
+        run.error("C14.R9: Updater::run not found")
+    else:
+        stores = [(b, t) for b, t in ur.calls() if (t.get("f") or "").endswith("Atomic::<bool>::store") or (t.get("f") or "").endswith("AtomicBool::store")]
+        set_true = [b for b, t in stores if vf.const_of_operand(ur, t["a"][1]) == "1"]
+        set_false = {b for b, t in stores if vf.const_of_operand(ur, t["a"][1]) == "0"}
+        rets = cfg.return_blocks(ur)
+        held = bool(set_true)
+        if held:
+            # an exit is fine when it passes store(false), or the edge on which is_running was just read as false
+            seen_false = set()
+            for b, t in ur.calls():
+                if (t.get("f") or "").endswith("Atomic::<bool>::load") or (t.get("f") or "").endswith("AtomicBool::load"):
+                    seen_false |= cfg.call_guard(ur, b).fail
+            for b in set_true:
+                par = cfg.reach(ur, starts=ur.succ(b), cut_nodes=frozenset(set_false), cut_edges=frozenset(seen_false))
+                if any(r in par for r in rets):
+                    held = False
+        run.instance(R9, {"fn": "Updater::run", "obligation": "no error exit of the updater loop leaves is_running set", "store(true)": len(set_true), "store(false)": len(set_false)}, held=held)
+        if not held:
+            run.finding(Finding(R9, ur.id, "when the updater thread ends on an error (e.g. its token became invalid because the wallet was closed and reopened) the 'updater running' flag stays set: from then on every refresh the owner asks for is skipped", site=ur.loc()))
+
     R5 = "C14.R5"
     run.rule(R5, "closed means closed: wallet_inst() errs on None; close_wallet clears the backend", floor=3)
     wi = [f for k, f in db.fns.items() if "DefaultLCProvider" in k and k.endswith("::wallet_inst") and "WalletLCProvider" in k]
